@@ -1640,6 +1640,7 @@ SUITES = {
     "srv_auth": lambda r, n, tier: gen_srv(r, n, tier, False, True),
     "role": gen_role,
     "pty_srv": gen_pty_srv,
+    "sport": lambda r, n, tier: ("pty port " + c[len("sport "):] if c.startswith("sport ") else c for c in __import__("gen_sport").gen_sport(r, n, tier)),
     "pty_cli": gen_pty_cli,
 }
 
